@@ -242,6 +242,7 @@ class MerchantEngine:
                             line_num, line
                         )
                     var_name, expr = let_match.groups()
+                    self._check_expression(expr, f"let expression '{var_name}'", line_num, line)
                     if 'let_bindings' not in current_rule:
                         current_rule['let_bindings'] = []
                     current_rule['let_bindings'].append((var_name.lower(), expr))
@@ -254,10 +255,12 @@ class MerchantEngine:
                             line_num, line
                         )
                     field_name, expr = field_match.groups()
+                    self._check_expression(expr, f"field expression '{field_name}'", line_num, line)
                     if 'fields' not in current_rule:
                         current_rule['fields'] = {}
                     current_rule['fields'][field_name.lower()] = expr
                 elif key == 'match':
+                    self._check_expression(value, "match expression", line_num, line)
                     current_rule['match_expr'] = value
                 elif key == 'category':
                     current_rule['category'] = value
@@ -288,6 +291,13 @@ class MerchantEngine:
                     tag = ''.join(current).strip()
                     if tag:
                         tags.add(tag)
+                    # A {expression} tag is an expression of the file like match:, let: and field:
+                    for tag in tags:
+                        if tag.startswith('{') and tag.endswith('}') and tag[1:-1].strip():
+                            self._check_expression(tag[1:-1].strip(), f"tag expression {tag}", line_num, line)
+                        elif ('{' in tag or '}' in tag) and not (tag.startswith('{') and tag.endswith('}')):
+                            # e.g. an unbalanced parenthesis inside {...} swallowed the comma after it
+                            raise MerchantParseError(f"Malformed tag: {tag}", line_num, line)
                     current_rule['tags'] = tags
                 elif key == 'priority':
                     try:
@@ -317,6 +327,18 @@ class MerchantEngine:
         # Save final rule
         if current_rule:
             self._add_rule(current_rule, rule_start_line)
+
+    @staticmethod
+    def _check_expression(expr: str, what: str, line_num: int, line: str) -> None:
+        """Reject an expression that does not parse, where it is written.
+
+        (_add_rule validates what a rule ends up with; a line that a later line of the same
+        rule overwrites - a second match:, a field: with the same name - would never get there.)
+        """
+        try:
+            expr_parser.parse_expression(expr)
+        except expr_parser.ExpressionError as e:
+            raise MerchantParseError(f"Invalid {what}: {e}", line_num, line)
 
     def _add_rule(self, rule_data: Dict[str, Any], line_number: int) -> None:
         """Add a parsed rule to the engine."""
